@@ -148,10 +148,17 @@ func nativeReplay(rf *ReplayFile, path string) (bool, string) {
 	defer os.RemoveAll(tmp)
 	ovPath := writeOverlay(tmp)
 
-	cmd := exec.Command("go", "test", "-tags", "verif", "-vet=off", "-count=1", "-v", "-run", "^TestVReplay$", "-overlay", ovPath, "-timeout", "300s", ".")
-	cmd.Dir = repoDir
-	cmd.Env = append(os.Environ(), "GOFLAGS=-mod=mod", "GOPROXY=off", "GOSUMDB=off", "GOTOOLCHAIN=local",
+	args := []string{"test", "-tags", "verif", "-vet=off", "-count=1", "-v", "-run", "^TestVReplay$", "-overlay", ovPath, "-timeout", "300s"}
+	env := append(os.Environ(), "GOFLAGS=-mod=mod", "GOPROXY=off", "GOSUMDB=off", "GOTOOLCHAIN=local",
 		"VERIF_REPLAY="+path, "VERIF_HARNESS="+rf.Harness, "VERIF_TIER="+rf.Tier)
+	if rf.Kind == "globalstore" {
+		// confirmed by the race detector: the harness on two goroutines
+		args = append(args, "-race")
+		env = append(env, "VERIF_RACE=1")
+	}
+	cmd := exec.Command("go", append(args, ".")...)
+	cmd.Dir = repoDir
+	cmd.Env = env
 	outb, _ := cmd.CombinedOutput()
 	out := string(outb)
 	ok := false
@@ -168,7 +175,7 @@ func nativeReplay(rf *ReplayFile, path string) (bool, string) {
 	case "steps":
 		ok = strings.Contains(out, "VRESULT timeout") || strings.Contains(out, "panic: test timed out") || strings.Contains(out, "fatal error: stack overflow")
 	case "globalstore":
-		ok = strings.Contains(out, "VRESULT globalstore")
+		ok = strings.Contains(out, "WARNING: DATA RACE")
 	}
 	return ok, out
 }
@@ -347,6 +354,13 @@ func writeOverlay(tmp string) string {
 	ovPath := filepath.Join(tmp, "overlay.json")
 	os.WriteFile(ovPath, ovJSON, 0o644)
 	return ovPath
+}
+
+func levelFor(prop string) string {
+	if prop == "C20" {
+		return "other"
+	}
+	return "model_checking"
 }
 
 // ---------- per-property report ----------
@@ -560,7 +574,7 @@ func report(eng *Engine, prop, tier string, seed int, decls []*HarnessDecl, runs
 		"property_id": prop,
 		"tier":        tier,
 		"seed":        seed,
-		"level":       "model_checking",
+		"level":       levelFor(prop),
 		"wall_s":      wall.Seconds() + loadTime.Seconds(),
 		"violations":  nViol,
 		"assumptions": assumeList,
